@@ -461,6 +461,80 @@ def impl():
     E["util.numpy_array_to_int"] = lambda a: bb.numpy_array_to_int(a)
     E["util.bitarray_to_numpy_array"] = lambda bits: bb.bitarray_to_numpy_array(bits)
     E["util.half_byte_to_bytes"] = lambda h, n: bb.half_byte_to_bytes(h, n)
+    # ---------------- the entry points modelled in Lean (Model/Purity.lean); results in the driver's line format
+    from okdmr.dmrlib.motorola.mbxml import MBXMLToken
+    from okdmr.dmrlib.motorola.text_messaging_service import FirstHeader
+
+    def fb(bits):
+        return bits.to01() or "-"
+
+    def fx(b):
+        return bytes(b).hex() or "-"
+
+    def guarded(f, buf):
+        """result line of f() + the argument buffer afterwards; exceptions as `ERR <Class>`"""
+        try:
+            out = f()
+        except Exception as e:  # noqa
+            out = "ERR " + type(e).__name__
+        return out + " args:" + (buf() if buf else "")
+
+    shared = [CRC8, CRC9, CRC16, CRC32]
+    E["m.crc.shared"] = lambda k, bits: guarded(lambda: "b:" + fb(shared[k].CALC.calculate_checksum(bits)), lambda: fb(bits))
+    E["m.crc.new"] = lambda c, t, bits: guarded(lambda: "b:" + fb(BitCrcCalculator(cfg_of(c), table_based=bool(t)).calculate_checksum(bits)), lambda: fb(bits))
+
+    def m_kept(c, t, bits):
+        key = ("m", json.dumps(c), t)
+        if key not in _PERSIST:
+            _PERSIST[key] = BitCrcCalculator(cfg_of(c), table_based=bool(t))
+        return "b:" + fb(_PERSIST[key].calculate_checksum(bits))
+
+    E["m.crc.kept"] = lambda c, t, bits: guarded(lambda: m_kept(c, t, bits), lambda: fb(bits))
+    hams = [Hamming743, Hamming1393, Hamming15113, Hamming16114, Hamming17123, Golay2087, QuadraticResidue1676]
+    E["m.ham.gen"] = lambda i, bits: guarded(lambda: "b:" + ("".join(str(int(x)) for x in hams[i].generate(bits).tolist()) or "-"), lambda: fb(bits))
+    E["m.ham.check"] = lambda i, bits: guarded(lambda: "f:" + ("1" if hams[i].check(bits) else "0"), lambda: fb(bits))
+
+    def m_cac(i, bits):
+        ok, out = hams[i].check_and_correct(bits)
+        return f"fb:{'1' if ok else '0'}:{fb(out)}"
+
+    E["m.ham.cac"] = lambda i, bits: guarded(lambda: m_cac(i, bits), lambda: fb(bits))
+    E["m.fivebit"] = lambda d: guarded(lambda: f"n:{FiveBitChecksum.calculate(d)}", lambda: fx(d))
+    E["m.byteswap"] = lambda d: guarded(lambda: "x:" + fx(bb.byteswap_bytearray(d)), lambda: fx(d))
+    E["m.default.burst"] = lambda: guarded(lambda: "b:" + fb(Burst().full_bits), None)
+
+    def m_csbk():
+        p = CSBK(last_block=True, protect_flag=False, csbko=CsbkOpcodes.AnnouncementPDUsWithoutResponse, manufacturers_feature_set_id=FeatureSetIDs.StandardizedFID).broadcast_params
+        return "pb:" + fb(p[:14]) + ":" + fb(p[14:38])
+
+    E["m.default.csbk"] = lambda: guarded(m_csbk, None)
+    E["m.default.dh"] = lambda: guarded(lambda: "b:" + fb(DataHeader(
+        dpf=DataPacketFormats.ShortDataDefined, sap_identifier=SAPIdentifier.ShortData, defined_data_format=DefinedDataFormats.Binary,
+        sarq=SARQ.NotRequired, full_message_flag=FullMessageFlag.FirstTryToCompletePacket).bit_padding), None)
+    E["m.default.so"] = lambda: guarded(lambda: "b:" + fb(ServiceOptions().reserved), None)
+    E["m.default.rcp"] = lambda: guarded(lambda: "x:" + fx(RadioControlProtocol(opcode=RCPOpcode.StatusChangeNotificationRequest).get_payload()), None)
+
+    def m_gettoken(req, name, attrs):
+        t = LRRP.get_token(name=name, value=None, attributes={k: v for k, v in attrs}, is_request=bool(req))
+        parts = []
+        for a in t.attributes:
+            if isinstance(a, MBXMLToken):
+                parts.append(f"i{a.token_id}={'none' if a.value is None else a.value}")
+            else:
+                parts.append(f"a{a}")
+        return f"tok:{t.token_id}:{t.name}:" + (",".join(parts) or "-")
+
+    E["m.gettoken"] = lambda req, name, attrs: guarded(lambda: m_gettoken(req, name, attrs), None)
+
+    def m_tms(data, stale):
+        o = TextMessagingService.from_bytes(data)
+        o.header.has_more_headers = bool(stale)  # the kept object's flag may hold anything: as_bytes rewrites it
+        a = o.as_bytes()
+        b = o.as_bytes()
+        h = o.header
+        return f"x:{fx(a)} x:{fx(b)} hdr:{int(h.is_acknowledged)}{int(h.is_reserved)}{int(h.is_control_message)}:{h.pdu_type.value[1]}"
+
+    E["m.tms"] = lambda data, stale: guarded(lambda: m_tms(data, stale), None)
     _IMPL = E
     return E
 
@@ -496,6 +570,8 @@ def execute(spec):
         after = canon(a)
         if after != b:
             same_obj = raw is a or (isinstance(raw, (tuple, list)) and any(x is a for x in raw))
+            if name == "m.ham.cac":
+                continue  # the buffer afterwards is part of the result line and compared with the model
             if name in INPLACE_OK and same_obj:
                 note = "in-place repair returned the repaired argument buffer"
                 continue
